@@ -7,7 +7,7 @@ import itertools
 
 from sa.engine.callgraph import calls_in, resolve_call
 from sa.engine.context import Ctx
-from sa.engine.loader import AnalysisError, dotted, norm, short, walk_own
+from sa.engine.loader import AnalysisError, anorm, dotted, norm, short, walk_own
 from sa.engine.objinterp import UNK, ObjInterp
 from sa.engine.report import Finding, RuleReport
 from sa.rules.common import X
@@ -275,6 +275,40 @@ def rule_n5(ctx: Ctx) -> RuleReport:
                 rep.fail(Finding("C17-N5", _DT, iu.qual, "raw body_html as unit text", f"`{short(c, 60)}` uses the HTML body as it stands as the text of the unit: for a message without a text/plain part get_full_text() is the markup, including style sheets, scripts and comments", line=c.lineno))
     if n_html == 0:
         rep.ok({"EmailContent.iterate_units": "never uses body_html as text"})
+    # (a'') read_html: what is fed to the tree builder is the input, decoded -- never the result of a regular-expression substitution. A
+    # pattern knows nothing of raw-text elements: '<!--' inside <script> or <style> is not a comment, and cutting from there to the next
+    # '-->' removes the element's end tag together with the visible text behind it. (The copy that is only *sniffed* may be rewritten.)
+    rh = ctx.p.func(HTML, "read_html")
+    rep.unit(rh.key)
+    feeds_h = [c for c in calls_in(rh) if isinstance(c.func, ast.Attribute) and c.func.attr == "feed" and c.args]
+    if not feeds_h:
+        raise AnalysisError("C17-N5: read_html no longer feeds the tree builder")
+    # names the fed value is computed from (assignment closure, backwards)
+    src = {x.id for x in ast.walk(feeds_h[0].args[0]) if isinstance(x, ast.Name)}
+    changed = True
+    while changed:
+        changed = False
+        for a in walk_own(rh.node):
+            if isinstance(a, ast.Assign) and len(a.targets) == 1 and isinstance(a.targets[0], ast.Name) and a.targets[0].id in src:
+                v = a.value
+                # the data of `x.decode(enc)` / `x.encode(..).decode(..)` / `x[3:]` is x; the codec name is a parameter, not data
+                while (isinstance(v, ast.Call) and isinstance(v.func, ast.Attribute) and v.func.attr in ("decode", "encode", "strip", "lstrip")) or isinstance(v, ast.Subscript):
+                    v = v.func.value if isinstance(v, ast.Call) else v.value
+                for x in ast.walk(v):
+                    if isinstance(x, ast.Name) and x.id not in src:
+                        src.add(x.id)
+                        changed = True
+    rewrites = []
+    for a in walk_own(rh.node):
+        if isinstance(a, ast.Assign) and len(a.targets) == 1 and isinstance(a.targets[0], ast.Name) and a.targets[0].id in src:
+            for c in ast.walk(a.value):
+                if isinstance(c, ast.Call) and ((isinstance(c.func, ast.Attribute) and c.func.attr in ("sub", "subn") and (dotted(c.func.value) == "re" or _is_regex_obj(ctx, ctx.p.module(HTML), c.func.value))) or dotted(c.func) in _PRE_TRANSFORMS):
+                    rewrites.append((a, c))
+    if rewrites:
+        for a, c in rewrites:
+            rep.fail(Finding("C17-N5", HTML, rh.qual, "markup rewritten before the parser: " + anorm(c, rh.node), f"`{short(a, 70)}` rewrites the page with a regular expression before it is parsed: a '<!--' inside <script> / <style> (raw text, no comment there) is cut through to the next '-->' or to the end of the input, the element's end tag goes with it and all visible text behind it is lost", line=a.lineno))
+    else:
+        rep.ok({"read_html": "the tree builder is fed the decoded input; regular expressions touch only the sniffed copy", "computed_from": sorted(src)})
     # (b) anywhere in the module a regex substitution may only prepare base64 text for decoding
     m = ctx.p.module(MHTML)
     for fi in m.functions.values():
@@ -317,6 +351,30 @@ def rule_n5(ctx: Ctx) -> RuleReport:
                     rep.ok({"pattern": rn, "tag": tag, "form": form_name})
                 else:
                     rep.fail(Finding("C17-N5", MSG, rn, f"<{tag}> {form_name} not recognised", f"{rn} does not find {form.format(t=tag)!r} ({form_name}): an HTML body stored as a fragment (no <html>/<body> wrapper) is taken for plain text, so its markup, style sheets and comments become the extracted text", line=node.lineno))
+    # the decision looks at the whole body: a window at the top misses a body that starts with a long comment, a run of inline tags
+    # (<font>, <b>, <a>) or quoted plain text before its first block tag
+    lk_params = {a.arg for a in lk.node.args.args}
+    lk_defs = {a.targets[0].id: a.value for a in walk_own(lk.node) if isinstance(a, ast.Assign) and len(a.targets) == 1 and isinstance(a.targets[0], ast.Name)}
+
+    def _windowed(e, depth=0):
+        if depth > 4:
+            return None
+        for x in ast.walk(e):
+            if isinstance(x, ast.Subscript) and isinstance(x.slice, ast.Slice) and x.slice.upper is not None:
+                return x
+            if isinstance(x, ast.Name) and x.id in lk_defs and x.id not in lk_params:
+                w = _windowed(lk_defs[x.id], depth + 1)
+                if w is not None:
+                    return w
+        return None
+
+    subjects = [n.args[0] for n in ast.walk(lk.node) if isinstance(n, ast.Call) and isinstance(n.func, ast.Attribute) and n.func.attr in ("search", "match", "startswith") and n.args and not isinstance(n.args[0], ast.Constant)]
+    subjects += [c.comparators[0] for c in ast.walk(lk.node) if isinstance(c, ast.Compare) and len(c.ops) == 1 and isinstance(c.ops[0], ast.In) and isinstance(c.left, ast.Constant)]
+    win = next((w for sbj in subjects for w in [_windowed(sbj)] if w is not None), None)
+    if win is not None:
+        rep.fail(Finding("C17-N5", MSG, lk.qual, "HTML decided on a window of the body: " + anorm(win, lk.node), f"_looks_like_html looks only at `{short(win, 40)}`: a body whose first block tag comes later (a long leading comment, an introduction of <font> / <b> / <a> runs) is taken for plain text and its markup, scripts, styles and comments become the extracted text", line=win.lineno))
+    else:
+        rep.ok({"_looks_like_html": "decides on the whole body"})
     if not rx_names:
         rep.ok({"_looks_like_html": "no regular expression consulted"})
     # MSG: _html_to_text feeds _HtmlTreeBuilder
